@@ -211,7 +211,7 @@ Theorem C20_middle_array_bhiksha_refines_sorted_records : forall m, 0 <= m_base 
   (forall i j, lo <= i -> i <= j -> j < hi -> word_of recs i <= word_of recs j) ->
   (forall i, lo <= i < hi -> word_of recs i <= m_max_vocab m) -> 0 <= word <= m_max_vocab m -> hi - lo <= 2 ^ 32 ->
   (Z.of_nat fuel >= Z.max 1 (hi - lo + 1)) ->
-  exists res, midA_find m fuel (length (map snd recs ++ [next_end])) (stA m recs next_end mem0) word lo hi = Some res /\
+  exists res, midA_find m fuel (stA m recs next_end mem0) word lo hi = Some res /\
     match res with
     | Some (p, pay, cb, ce) => lo <= p < hi /\ word_of recs p = word /\ pay = pay_of recs p /\
                                cb = nextA recs next_end p /\ ce = nextA recs next_end (p + 1)
